@@ -27,7 +27,7 @@ def build(case, enc):
         for r, c, v in tr:
             a[r, c] += v
         return a
-    if fmt in ("coo", "coo_dup"):
+    if fmt.startswith("coo"):
         return ss.coo_matrix((np.array([t[2] for t in tr], dtype=dt), (np.array([t[0] for t in tr], dtype=np.int32),
                                                                       np.array([t[1] for t in tr], dtype=np.int32))), shape=(n, m))
     if fmt.startswith("csc"):
@@ -51,6 +51,28 @@ def build(case, enc):
     raise ValueError(fmt)
 
 
+def snapshot(X):
+    """the arrays that make up the caller's matrix, bytewise"""
+    if isinstance(X, np.ndarray):
+        parts = {"array": X}
+    elif X.format in ("csr", "csc"):
+        parts = {"data": X.data, "indices": X.indices, "indptr": X.indptr}
+    elif X.format == "coo":
+        parts = {"data": X.data, "row": X.row, "col": X.col}
+    elif X.format == "lil":
+        return {"rows": repr(X.rows.tolist()), "data": repr(X.data.tolist()), "shape": repr(X.shape)}
+    else:
+        parts = {"dense": X.toarray()}
+    out = {k: (str(v.dtype), v.shape, v.tobytes()) for k, v in parts.items()}
+    out["shape"] = repr(X.shape)
+    return out
+
+
+def changed(before, X):
+    after = snapshot(X)
+    return sorted(k for k in set(before) | set(after) if before.get(k) != after.get(k))
+
+
 def weights(X, s, approx):
     try:
         if not ss.isspmatrix(X):
@@ -69,8 +91,15 @@ def run(case):
     s = float.fromhex(case["s"])
     out = {"enc": []}
     for enc in case["encodings"]:
-        X = build(case, enc)
-        out["enc"].append({"exact": weights(X.copy(), s, False), "approx": weights(X.copy(), s, True)})
+        # the calls are made on the caller's own object (no copy): its arrays must come back untouched
+        X, X2 = build(case, enc), build(case, enc)
+        b1, b2 = snapshot(X), snapshot(X2)
+        r = {"exact": weights(X, s, False), "approx": weights(X2, s, True)}
+        mod = ["information_weight(exact prior) changed %s" % k for k in changed(b1, X)] + \
+              ["information_weight(approximate prior) changed %s" % k for k in changed(b2, X2)]
+        if mod:
+            r["caller_modified"] = mod
+        out["enc"].append(r)
     base = build(case, case["encodings"][0])        # canonical CSR
     rp, cp = case["row_perm"], case["col_perm"]
     out["row_perm"] = weights(ss.csr_matrix(base.toarray()[rp, :]), s, False)
@@ -79,14 +108,20 @@ def run(case):
     tr = {}
     try:
         p = float.fromhex(case["power"])
-        for name, enc in [("sparse", case["encodings"][0]), ("dense", {"fmt": "dense", "entries": case["encodings"][0]["entries"]})]:
+        inputs = [("sparse", case["encodings"][0]), ("dense", {"fmt": "dense", "entries": case["encodings"][0]["entries"]})]
+        if len(case["encodings"]) > 12:
+            inputs.append(("dup", case["encodings"][12]))       # CSC with duplicate coordinates, explicit zeros, unsorted indices
+        for name, enc in inputs:
             X = build(case, enc)
+            before = snapshot(X)
             t = InformationWeightTransformer(prior_strength=s, approx_prior=case["approx"], weight_power=p)
             r = t.fit(X)
             w = [hx(v) for v in t.information_weights_]
+            mod = ["fit changed %s" % k for k in changed(before, X)]
             Z = build(case, {"fmt": enc["fmt"] if enc["fmt"] == "dense" else "csr", "entries": case["other"]})
             a, b = float.fromhex(case["lin"][0]), float.fromhex(case["lin"][1])
             tx, tz = t.transform(X), t.transform(Z)
+            mod += ["transform changed %s" % k for k in changed(before, X)]
             comb = t.transform(a * X + b * Z)
             w_after = [hx(v) for v in t.information_weights_]
             # call history on the SAME estimator object: refit on another matrix, refit supervised, transform again
@@ -102,7 +137,7 @@ def run(case):
                     hist.append({"mode": mode, "w": [hx(v) for v in t.information_weights_], "tx": dense_of(t.transform(X))})
                 except Exception as e:  # noqa
                     hist.append({"mode": mode, "err": type(e).__name__, "msg": str(e)[:200]})
-            tr[name] = {"history": hist, "fit_returns_self": r is t, "w": w, "w_after_transform": w_after, "tx": dense_of(tx), "tz": dense_of(tz), "comb": dense_of(comb),
+            tr[name] = {"caller_modified": mod, "history": hist, "fit_returns_self": r is t, "w": w, "w_after_transform": w_after, "tx": dense_of(tx), "tz": dense_of(tz), "comb": dense_of(comb),
                         "x": dense_of(X), "z": dense_of(Z), "axbz": dense_of(a * X + b * Z)}
     except Exception as e:  # noqa
         tr["err"] = {"err": type(e).__name__, "msg": str(e)[:300], "tb": traceback.format_exc()[-500:]}
